@@ -89,7 +89,9 @@ def _build_one(ctx, job):
     detail = ""
     if not ok:
         b = built[-1] if built else {}
-        detail = ("rc=%s %s %s %s" % (rc, b.get("panic") or "", b.get("err") or "", (b.get("diag") or "")[-600:])).strip() or err
+        diag = b.get("diag") or ""
+        errs = [x.strip() for x in diag.split("____") if x.strip().startswith("error")]
+        detail = ("rc=%s %s %s %s" % (rc, b.get("panic") or "", b.get("err") or "", " | ".join(errs[:2]) or diag[-600:])).strip() or err
     tevs = read_ndjson(trace) if os.path.exists(trace) else []
     for p in (inp, trace):
         if os.path.exists(p):
